@@ -522,14 +522,19 @@ func (cs *connState) handleRequest() bool {
 		return false
 	}
 
-	messageSize := atomic.LoadUint32(&cs.messageSize)
-	if messageSize == 0 {
+	// The limit is looked up when a header has arrived: this goroutine is
+	// usually already waiting here while the Tversion that sets the limit is
+	// still being handled, and the frame after Rversion must obey it.
+	messageSize := func() uint32 {
+		if messageSize := atomic.LoadUint32(&cs.messageSize); messageSize != 0 {
+			return messageSize
+		}
 		// Default or not yet negotiated.
-		messageSize = maximumLength
+		return maximumLength
 	}
 
 	// Receive a message.
-	tag, m, err := recv(cs.server.log, cs.t, messageSize, msgDotLRegistry.get)
+	tag, m, err := recvLimit(cs.server.log, cs.t, messageSize, msgDotLRegistry.get)
 	if errSocket, ok := err.(ConnError); ok {
 		if errSocket.error != io.EOF {
 			// Connection problem; stop serving.
